@@ -2,15 +2,23 @@ import SigpyVerif.Model.C17
 import SigpyVerif.Props.C09
 import Mathlib.Analysis.InnerProductSpace.Basic
 import Mathlib.Analysis.Complex.Basic
+import Mathlib.Analysis.InnerProductSpace.Orthonormal
+import Mathlib.Analysis.InnerProductSpace.PiL2
 /-
   C17 — ESPIRiT maps: unit-norm or exactly zero, phase-referenced to coil 0, eigenvalue estimates of a
   Hermitian PSD Gram operator.
 
   Proved (about `Model/C17.lean`, instantiated over ℂ by `cops`): `power_step_unit`, `phase_ref`,
   `crop_dichotomy`, `espirit_keeps_iff`, `gram_symmetric`, `gram_psd`, `power_monotone`, `power_bounded`,
-  `calib_index_map` (1-D calibration region, through `C09.a2b1_mem`), `espirit_scale`.
-  NOT theorems (property is partial by nature — numerical / depends on smoothness and calibration size):
-  `eig ≤ 1` and the recovery of the true maps; they are checked by the search oracle only.
+  `calib_index_map` / `calib_index_map_2d` / `calib_index_map_3d` (1-D/2-D/3-D calibration regions, through
+  `C09.a2b1_mem` / `a2b2_mem` / `a2b3_mem` and the generated reshape/transpose steps), `espirit_scale`,
+  `eig ≤ 1`: `bessel_gram_le`, `gram_quadratic_le`, `eig_le_one_of_orthonormal_kernels` (abstract) and
+  `eig_le_one_espirit` (instantiated with the generated scale `N/kw^d`) — UNDER the hypotheses that the kept rows of
+  numpy's `VH` are orthonormal and that the image-domain kernels are the centred orthonormal DFT of the zero-padded
+  kernels; the correspondence checks both on the real intermediates on every run.
+  NOT theorems (numerical / depends on smoothness and calibration size): orthonormality of the SVD output, the
+  float power iteration reaching the eigenvalue, recovery of the true maps; they are checked by
+  correspondence / the search oracle only.
 -/
 namespace SigpyVerif.C17
 open SigpyVerif
@@ -194,6 +202,176 @@ theorem power_bounded (T : E →ₗ[ℂ] E) (L : ℝ) (hL : ∀ z, ‖T z‖ ≤
 
 end gram
 
+/-! ### eigenvalues ≤ 1: Bessel's inequality for the orthonormal SVD kernels -/
+
+section bessel
+variable {E F : Type} [NormedAddCommGroup E] [InnerProductSpace ℂ E] [NormedAddCommGroup F] [InnerProductSpace ℂ F]
+open scoped InnerProductSpace
+
+/-- **bessel_gram_le** (Bessel's inequality). For an orthonormal family `v_k` and any vector `z`,
+    `Σ_k |⟪v_k, z⟫|² ≤ ‖z‖²`. -/
+theorem bessel_gram_le {ι : Type} (S : Finset ι) (v : ι → E) (hv : Orthonormal ℂ v) (z : E) :
+    ∑ k ∈ S, ‖⟪v k, z⟫_ℂ‖ ^ 2 ≤ ‖z‖ ^ 2 := hv.sum_inner_products_le z
+
+/-- The per-voxel quadratic form.  `v_k` orthonormal in `E` (`= ℂ^{coils × kw^d}`: the kept rows of `VH`),
+    `T : F → E` (`x ↦ x ⊗ conj e_q`, the voxel's DFT phases) with `‖T x‖² = κ‖x‖²` (`κ = kw^d / N`), and image-domain
+    kernels `a_k` with `⟪a_k, x⟫ = ⟪v_k, T x⟫`.  If the scale `c ≥ 0` satisfies `c·κ ≤ 1` then
+    `c · Σ_k |⟪a_k, x⟫|² ≤ ‖x‖²`. -/
+theorem gram_quadratic_le {ι : Type} (S : Finset ι) (v : ι → E) (hv : Orthonormal ℂ v) (a : ι → F) (T : F → E)
+    (κ c : ℝ) (ha : ∀ k x, ⟪a k, x⟫_ℂ = ⟪v k, T x⟫_ℂ) (hT : ∀ x, ‖T x‖ ^ 2 = κ * ‖x‖ ^ 2) (hc : 0 ≤ c) (hcκ : c * κ ≤ 1)
+    (x : F) : c * ∑ k ∈ S, ‖⟪a k, x⟫_ℂ‖ ^ 2 ≤ ‖x‖ ^ 2 := by
+  have h1 : ∑ k ∈ S, ‖⟪a k, x⟫_ℂ‖ ^ 2 ≤ κ * ‖x‖ ^ 2 := by
+    rw [← hT x]
+    simp only [ha]
+    exact bessel_gram_le S v hv (T x)
+  calc c * ∑ k ∈ S, ‖⟪a k, x⟫_ℂ‖ ^ 2 ≤ c * (κ * ‖x‖ ^ 2) := mul_le_mul_of_nonneg_left h1 hc
+    _ = (c * κ) * ‖x‖ ^ 2 := by ring
+    _ ≤ 1 * ‖x‖ ^ 2 := mul_le_mul_of_nonneg_right hcκ (by positivity)
+    _ = ‖x‖ ^ 2 := one_mul _
+
+/-- `|⟪G x, y⟫| ≤ c · Σ_k |⟪a_k, x⟫|·|⟪a_k, y⟫|` -/
+theorem gram_inner_le {ι : Type} (S : Finset ι) (a : ι → F) (c : ℝ) (hc : 0 ≤ c) (x y : F) :
+    ‖⟪gramOp S a c x, y⟫_ℂ‖ ≤ c * ∑ k ∈ S, ‖⟪a k, x⟫_ℂ‖ * ‖⟪a k, y⟫_ℂ‖ := by
+  unfold gramOp
+  rw [inner_smul_left, norm_mul, Complex.conj_ofReal, Complex.norm_real, Real.norm_eq_abs, abs_of_nonneg hc, sum_inner]
+  apply mul_le_mul_of_nonneg_left _ hc
+  refine (norm_sum_le _ _).trans (le_of_eq ?_)
+  apply Finset.sum_congr rfl
+  intro k _
+  rw [inner_smul_left, norm_mul, RCLike.norm_conj]
+
+/-- **eig_le_one_of_orthonormal_kernels.**  Under the hypotheses of `gram_quadratic_le` the Gram operator
+    `G_q = c·Σ_k a_k a_kᴴ` of a voxel is a contraction: `‖G_q x‖ ≤ ‖x‖` and `re ⟪G_q x, x⟫ ≤ ‖x‖²`.  So every
+    eigenvalue of `G_q`, and every power-method estimate `‖G_q x‖` at a unit vector (`power_bounded` with `L = 1`),
+    is `≤ 1`.  Facts that enter as hypotheses: the kept rows of numpy's `VH` are orthonormal (`hv`); the voxel's
+    kernel values are `a_k = T† v_k` (`ha`) with `‖T x‖² = κ‖x‖²` (`hT`: the entries of the centred orthonormal DFT
+    have modulus `1/√N`, zero padding only selects `kw^d` of them, so `κ ≤ kw^d/N`, with equality when the
+    kernel fits into the image); `c·κ ≤ 1` holds for the scale `N/kw^d` the translator extracts (`espirit_scale`). -/
+theorem eig_le_one_of_orthonormal_kernels {ι : Type} (S : Finset ι) (v : ι → E) (hv : Orthonormal ℂ v) (a : ι → F)
+    (T : F → E) (κ c : ℝ) (ha : ∀ k x, ⟪a k, x⟫_ℂ = ⟪v k, T x⟫_ℂ) (hT : ∀ x, ‖T x‖ ^ 2 = κ * ‖x‖ ^ 2) (hc : 0 ≤ c)
+    (hcκ : c * κ ≤ 1) (x : F) :
+    ‖gramOp S a c x‖ ≤ ‖x‖ ∧ (⟪gramOp S a c x, x⟫_ℂ).re ≤ ‖x‖ ^ 2 := by
+  have hq := gram_quadratic_le S v hv a T κ c ha hT hc hcκ
+  constructor
+  · set g := gramOp S a c x with hg
+    have h1 := gram_inner_le S a c hc x g
+    have h2 := Finset.sum_mul_sq_le_sq_mul_sq S (fun k => ‖⟪a k, x⟫_ℂ‖) (fun k => ‖⟪a k, g⟫_ℂ‖)
+    have hx := hq x
+    have hgq := hq g
+    have hgg : ‖⟪g, g⟫_ℂ‖ = ‖g‖ ^ 2 := by
+      rw [inner_self_eq_norm_sq_to_K]; norm_cast; exact abs_of_nonneg (by positivity)
+    rw [← hg, hgg] at h1
+    have hsx : 0 ≤ ∑ k ∈ S, ‖⟪a k, x⟫_ℂ‖ ^ 2 := Finset.sum_nonneg (fun _ _ => by positivity)
+    have hsg : 0 ≤ ∑ k ∈ S, ‖⟪a k, g⟫_ℂ‖ ^ 2 := Finset.sum_nonneg (fun _ _ => by positivity)
+    have hsxg : 0 ≤ ∑ k ∈ S, ‖⟪a k, x⟫_ℂ‖ * ‖⟪a k, g⟫_ℂ‖ := Finset.sum_nonneg (fun _ _ => by positivity)
+    -- ‖g‖⁴ ≤ (c Σ f g)² ≤ (c Σ f²)(c Σ g²) ≤ ‖x‖² ‖g‖²
+    have h3 : (‖g‖ ^ 2) ^ 2 ≤ ‖x‖ ^ 2 * ‖g‖ ^ 2 := by
+      calc (‖g‖ ^ 2) ^ 2 ≤ (c * ∑ k ∈ S, ‖⟪a k, x⟫_ℂ‖ * ‖⟪a k, g⟫_ℂ‖) ^ 2 :=
+            pow_le_pow_left₀ (by positivity) h1 2
+        _ = c ^ 2 * (∑ k ∈ S, ‖⟪a k, x⟫_ℂ‖ * ‖⟪a k, g⟫_ℂ‖) ^ 2 := by ring
+        _ ≤ c ^ 2 * ((∑ k ∈ S, ‖⟪a k, x⟫_ℂ‖ ^ 2) * ∑ k ∈ S, ‖⟪a k, g⟫_ℂ‖ ^ 2) :=
+            mul_le_mul_of_nonneg_left h2 (by positivity)
+        _ = (c * ∑ k ∈ S, ‖⟪a k, x⟫_ℂ‖ ^ 2) * (c * ∑ k ∈ S, ‖⟪a k, g⟫_ℂ‖ ^ 2) := by ring
+        _ ≤ ‖x‖ ^ 2 * ‖g‖ ^ 2 := mul_le_mul hx hgq (mul_nonneg hc hsg) (by positivity)
+    by_cases h0 : ‖g‖ = 0
+    · rw [h0]; positivity
+    · have hpos : 0 < ‖g‖ ^ 2 := by positivity
+      have h4 : ‖g‖ ^ 2 ≤ ‖x‖ ^ 2 := by
+        have : ‖g‖ ^ 2 * ‖g‖ ^ 2 ≤ ‖x‖ ^ 2 * ‖g‖ ^ 2 := by rw [← sq]; exact h3
+        exact le_of_mul_le_mul_right this hpos
+      exact (pow_le_pow_iff_left₀ (norm_nonneg _) (norm_nonneg _) (by norm_num)).mp h4
+  · rw [(gram_psd S a c hc x).1, Complex.ofReal_re]
+    exact hq x
+
+/-- eigenvalue form: if `G_q x = λ x` with `x ≠ 0` then `|λ| ≤ 1` -/
+theorem eigenvalue_le_one {ι : Type} (S : Finset ι) (v : ι → E) (hv : Orthonormal ℂ v) (a : ι → F)
+    (T : F → E) (κ c : ℝ) (ha : ∀ k x, ⟪a k, x⟫_ℂ = ⟪v k, T x⟫_ℂ) (hT : ∀ x, ‖T x‖ ^ 2 = κ * ‖x‖ ^ 2) (hc : 0 ≤ c)
+    (hcκ : c * κ ≤ 1) (x : F) (hx : x ≠ 0) (lam : ℂ) (hlam : gramOp S a c x = lam • x) : ‖lam‖ ≤ 1 := by
+  have h := (eig_le_one_of_orthonormal_kernels S v hv a T κ c ha hT hc hcκ x).1
+  rw [hlam, norm_smul] at h
+  have hpos : 0 < ‖x‖ := norm_pos_iff.mpr hx
+  exact le_of_mul_le_mul_right (by simpa using h) hpos
+
+end bessel
+
+/-! ### the instantiation for `EspiritCalib`: `E = ℂ^{coils × kernel offsets}`, `F = ℂ^{coils}` -/
+
+section espirit_instance
+open scoped InnerProductSpace
+variable {C P : Type} [Fintype C] [Fintype P]
+
+/-- `x ↦ x ⊗ conj ε`: coil vector times the conjugate DFT phases of the voxel over the kernel offsets -/
+noncomputable def tensorPhase (ε : P → ℂ) (x : EuclideanSpace ℂ C) : EuclideanSpace ℂ (C × P) :=
+  WithLp.toLp 2 fun cp => x cp.1 * (starRingEnd ℂ) (ε cp.2)
+
+/-- value at one voxel of the inverse DFT of a zero-padded kernel `v[c, offset]`: `a[c] = Σ_p v[c,p]·ε_p`, where
+    `ε_p` is the entry of the (centred, orthonormal) inverse DFT matrix for this voxel and the grid position the
+    centre-padding `sp.resize(kernel, ksp.shape)` puts offset `p` at -/
+noncomputable def imgKernel (ε : P → ℂ) (v : EuclideanSpace ℂ (C × P)) : EuclideanSpace ℂ C :=
+  WithLp.toLp 2 fun c => ∑ p, v (c, p) * ε p
+
+theorem imgKernel_inner (ε : P → ℂ) (v : EuclideanSpace ℂ (C × P)) (x : EuclideanSpace ℂ C) :
+    ⟪imgKernel ε v, x⟫_ℂ = ⟪v, tensorPhase ε x⟫_ℂ := by
+  simp only [PiLp.inner_apply, imgKernel, tensorPhase, RCLike.inner_apply, Fintype.sum_prod_type, map_sum, map_mul,
+    Finset.mul_sum]
+  apply Finset.sum_congr rfl; intro c _
+  apply Finset.sum_congr rfl; intro p _
+  ring
+
+theorem tensorPhase_norm_sq (ε : P → ℂ) (x : EuclideanSpace ℂ C) :
+    ‖tensorPhase ε x‖ ^ 2 = (∑ p, ‖ε p‖ ^ 2) * ‖x‖ ^ 2 := by
+  rw [EuclideanSpace.norm_sq_eq, EuclideanSpace.norm_sq_eq, Fintype.sum_prod_type, Finset.mul_sum, ]
+  apply Finset.sum_congr rfl; intro c _
+  rw [Finset.sum_mul]
+  apply Finset.sum_congr rfl; intro p _
+  simp only [tensorPhase, norm_mul, RCLike.norm_conj, mul_pow]
+  ring
+
+/-- **eig_le_one_espirit.**  `EspiritCalib`'s per-voxel Gram matrix
+    `AHA[q] = (N / kw^d) · Σ_k a_k(q) a_k(q)ᴴ` (scale = the generated `Gen.espiritScale`) is a contraction with
+    quadratic form `≤ ‖x‖²`: all its eigenvalues and all power-method estimates at unit vectors are `≤ 1`.
+    HYPOTHESES (numerical facts about numpy / the DFT, checked by the correspondence on every run):
+    `hv` — the kept rows of `VH` from `numpy.linalg.svd(full_matrices=False)`, as vectors over
+    `(coil, kernel offset)`, are orthonormal; `hε` — `a_k(q)[c] = Σ_p v_k[c,p]·ε_p` with `|ε_p|² ≤ 1/N`
+    (centred orthonormal inverse DFT of the centre-padded kernel, `= 1/N` where the offset lands on the grid and `0`
+    where `sp.resize` crops it; `N = prod(img_shape)`);
+    `hP` — there are `kw^d` kernel offsets. -/
+theorem eig_le_one_espirit {ι : Type} (S : Finset ι) (v : ι → EuclideanSpace ℂ (C × P)) (hv : Orthonormal ℂ v)
+    (ε : P → ℂ) (N kw : Int) (d : Nat) (hN : 0 < N) (hkw : 0 < kw) (hP : (Fintype.card P : Int) = kw ^ d)
+    (hε : ∀ p, ‖ε p‖ ^ 2 ≤ 1 / (N : ℝ)) (x : EuclideanSpace ℂ C) :
+    ‖gramOp S (fun k => imgKernel ε (v k)) ((Gen.espiritScale N kw d : Rat) : ℝ) x‖ ≤ ‖x‖ ∧
+    (⟪gramOp S (fun k => imgKernel ε (v k)) ((Gen.espiritScale N kw d : Rat) : ℝ) x, x⟫_ℂ).re ≤ ‖x‖ ^ 2 := by
+  have hNr : (0 : ℝ) < (N : ℝ) := by exact_mod_cast hN
+  have hkr : (0 : ℝ) < ((kw ^ d : Int) : ℝ) := by exact_mod_cast pow_pos hkw d
+  have hsc : ((Gen.espiritScale N kw d : Rat) : ℝ) = (N : ℝ) / ((kw ^ d : Int) : ℝ) := by
+    unfold Gen.espiritScale; push_cast; rfl
+  have hκ : (∑ p, ‖ε p‖ ^ 2) ≤ ((kw ^ d : Int) : ℝ) / (N : ℝ) := by
+    have h1 : (∑ p : P, ‖ε p‖ ^ 2) ≤ ∑ _p : P, 1 / (N : ℝ) := Finset.sum_le_sum (fun p _ => hε p)
+    have : ((Fintype.card P : ℕ) : ℝ) = ((kw ^ d : Int) : ℝ) := by exact_mod_cast hP
+    simp only [Finset.sum_const, Finset.card_univ, nsmul_eq_mul, this] at h1
+    calc (∑ p, ‖ε p‖ ^ 2) ≤ ((kw ^ d : Int) : ℝ) * (1 / (N : ℝ)) := h1
+      _ = ((kw ^ d : Int) : ℝ) / (N : ℝ) := by ring
+  apply eig_le_one_of_orthonormal_kernels S v hv (fun k => imgKernel ε (v k)) (tensorPhase ε)
+    (∑ p, ‖ε p‖ ^ 2) _ (fun k x => imgKernel_inner ε (v k) x) (fun x => tensorPhase_norm_sq ε x)
+  · rw [hsc]; positivity
+  · rw [hsc]
+    calc (N : ℝ) / ((kw ^ d : Int) : ℝ) * ∑ p, ‖ε p‖ ^ 2
+        ≤ (N : ℝ) / ((kw ^ d : Int) : ℝ) * (((kw ^ d : Int) : ℝ) / (N : ℝ)) :=
+          mul_le_mul_of_nonneg_left hκ (by positivity)
+      _ = 1 := by field_simp
+
+/-- non-vacuity: one coil, `kw^d = 2` offsets, `N = 4`, the single unit kernel `(1, 0)` with phases `±1/2` -/
+example : ∃ (v : Unit → EuclideanSpace ℂ (Unit × Fin 2)) (ε : Fin 2 → ℂ), Orthonormal ℂ v ∧
+    (∀ p, ‖ε p‖ ^ 2 ≤ 1 / ((4 : Int) : ℝ)) ∧ ((Fintype.card (Fin 2) : Int) = 2 ^ 1) := by
+  refine ⟨fun _ => EuclideanSpace.single ((), 0) 1, fun _ => (1 / 2 : ℂ), ?_, ?_, by simp⟩
+  · rw [orthonormal_iff_ite]
+    intro i j
+    simp
+  · intro p
+    norm_num
+
+end espirit_instance
+
 /-- the Gram scaling of the source is `prod(img_shape) / kernel_width ^ img_ndim` -/
 theorem espirit_scale (N kw : Int) (d : Nat) : Gen.espiritScale N kw d = (N : Rat) / ((kw ^ d : Int) : Rat) := rfl
 
@@ -226,5 +404,92 @@ theorem calib_index_map (nc cw kw : Int) (e : List Int × List Int) :
     rw [C09.a2b1_mem]
     refine ⟨c, n, x, hc0, hc1, hn0, hn1, hx0, hx1, ?_, rfl⟩
     simp [shapeFn]; omega
+
+/-- the reshape / transpose / reshape that turn the blocks `[nc] + nb + [kw]*d` into the calibration matrix are
+    `reshape([nc, -1, kw^d])`, `transpose([1, 0, 2])`, `reshape([-1, nc·kw^d])` (as generated from the source) -/
+theorem calib_shape_steps (nc kw : Int) (d : Nat) :
+    Gen.espiritReshape1 nc kw d = [nc, -1, kw ^ d] ∧ Gen.espiritPerm = [1, 0, 2] ∧
+    Gen.espiritReshape2 nc kw d = [-1, nc * kw ^ d] ∧ Gen.espiritCalibLen = id ∧ Gen.espiritBlk = id ∧
+    Gen.espiritStride = fun _ => 1 := ⟨rfl, rfl, rfl, rfl, rfl, rfl⟩
+
+theorem numBlks_stride_one (cw kw : Int) : Gen.numBlks cw kw 1 = cw - kw + 1 := by
+  unfold Gen.numBlks; rw [pyDiv_of_pos _ (by decide)]; simp
+
+/-- **calib_index_map_2d** (2-D calibration region `[nc, cw, cw]`, kernel `kw × kw`, for ALL integers `nc, cw, kw`
+    — in particular all `calib_width ≥ kernel_width ≥ 1`).  The calibration matrix handed to the SVD has one row
+    per sliding block (row-major block index `ny·(cw-kw+1) + nx`, stride 1) and columns ordered
+    `(coil, kernel offset row-major)`: entry `(ny·(cw-kw+1)+nx, c·kw² + y·kw + x)` reads `calib[c, ny+y, nx+x]`, and
+    there are no other entries.  Through the GENERATED loop nest `Gen.a2b2` (`C09.a2b2_mem`) and the generated
+    `reshape / transpose([1,0,2]) / reshape` steps. -/
+theorem calib_index_map_2d (nc cw kw : Int) (e : List Int × List Int) :
+    (∃ E, calibEntries nc cw kw 2 = some E ∧ e ∈ E) ↔
+      ∃ c ny nx y x, 0 ≤ c ∧ c < nc ∧ 0 ≤ ny ∧ ny < cw - kw + 1 ∧ 0 ≤ nx ∧ nx < cw - kw + 1 ∧
+        0 ≤ y ∧ y < kw ∧ 0 ≤ x ∧ x < kw ∧
+        e = ([ny * (cw - kw + 1) + nx, c * (kw * kw) + (y * kw + x)], [c, ny + y, nx + x]) := by
+  have hnb := numBlks_stride_one cw kw
+  have hE : calibEntries nc cw kw 2 = some ((Gen.a2b2 (shapeFn ([nc] ++ [cw - kw + 1, cw - kw + 1] ++ [kw, kw]))
+      (shapeFn ([nc] ++ [cw, cw])) nc kw kw 1 1 (cw - kw + 1) (cw - kw + 1)).map
+      fun (o, i, _) => ([ravel [cw - kw + 1, cw - kw + 1] ((o.drop 1).take 2),
+        o.headD 0 * shapeProd [kw, kw] + ravel [kw, kw] ((o.drop 3).take 2)], i)) := by
+    simp [calibEntries, C09.numBlksList, C09.zip3With, C09.a2bEntries, Gen.espiritCalibLen, Gen.espiritBlk, Gen.espiritStride,
+      Gen.espiritPerm, hnb, List.replicate]
+  constructor
+  · rintro ⟨E, hEq, hmem⟩
+    rw [hE] at hEq
+    cases hEq
+    simp only [List.mem_map] at hmem
+    obtain ⟨u, hu, rfl⟩ := hmem
+    rw [C09.a2b2_mem] at hu
+    obtain ⟨b, ny, nx, y, x, hb0, hb1, hny0, hny1, hnx0, hnx1, hy0, hy1, hx0, hx1, _, _, rfl⟩ := hu
+    refine ⟨b, ny, nx, y, x, hb0, hb1, hny0, hny1, hnx0, hnx1, hy0, hy1, hx0, hx1, ?_⟩
+    simp [ravel, shapeProd]
+  · rintro ⟨c, ny, nx, y, x, hc0, hc1, hny0, hny1, hnx0, hnx1, hy0, hy1, hx0, hx1, rfl⟩
+    refine ⟨_, hE, ?_⟩
+    simp only [List.mem_map]
+    refine ⟨([c, ny, nx, y, x], [c, ny * 1 + y, nx * 1 + x], 1), ?_, by simp [ravel, shapeProd]⟩
+    rw [C09.a2b2_mem]
+    refine ⟨c, ny, nx, y, x, hc0, hc1, hny0, hny1, hnx0, hnx1, hy0, hy1, hx0, hx1, ?_, ?_, rfl⟩
+    · simp [shapeFn]; omega
+    · simp [shapeFn]; omega
+
+/-- **calib_index_map_3d** (3-D calibration region `[nc, cw, cw, cw]`, kernel `kw³`): entry
+    `((nz·nb+ny)·nb+nx, c·kw³ + (z·kw+y)·kw+x)`, `nb = cw-kw+1`, reads `calib[c, nz+z, ny+y, nx+x]`; no other
+    entries; for all integers `nc, cw, kw`.  Through `Gen.a2b3` (`C09.a2b3_mem`). -/
+theorem calib_index_map_3d (nc cw kw : Int) (e : List Int × List Int) :
+    (∃ E, calibEntries nc cw kw 3 = some E ∧ e ∈ E) ↔
+      ∃ c nz ny nx z y x, 0 ≤ c ∧ c < nc ∧ 0 ≤ nz ∧ nz < cw - kw + 1 ∧ 0 ≤ ny ∧ ny < cw - kw + 1 ∧
+        0 ≤ nx ∧ nx < cw - kw + 1 ∧ 0 ≤ z ∧ z < kw ∧ 0 ≤ y ∧ y < kw ∧ 0 ≤ x ∧ x < kw ∧
+        e = ([(nz * (cw - kw + 1) + ny) * (cw - kw + 1) + nx, c * (kw * kw * kw) + ((z * kw + y) * kw + x)],
+             [c, nz + z, ny + y, nx + x]) := by
+  have hnb := numBlks_stride_one cw kw
+  have hE : calibEntries nc cw kw 3 = some ((Gen.a2b3 (shapeFn ([nc] ++ [cw - kw + 1, cw - kw + 1, cw - kw + 1] ++ [kw, kw, kw]))
+      (shapeFn ([nc] ++ [cw, cw, cw])) nc kw kw kw 1 1 1 (cw - kw + 1) (cw - kw + 1) (cw - kw + 1)).map
+      fun (o, i, _) => ([ravel [cw - kw + 1, cw - kw + 1, cw - kw + 1] ((o.drop 1).take 3),
+        o.headD 0 * shapeProd [kw, kw, kw] + ravel [kw, kw, kw] ((o.drop 4).take 3)], i)) := by
+    simp [calibEntries, C09.numBlksList, C09.zip3With, C09.a2bEntries, Gen.espiritCalibLen, Gen.espiritBlk, Gen.espiritStride,
+      Gen.espiritPerm, hnb, List.replicate]
+  constructor
+  · rintro ⟨E, hEq, hmem⟩
+    rw [hE] at hEq
+    cases hEq
+    simp only [List.mem_map] at hmem
+    obtain ⟨u, hu, rfl⟩ := hmem
+    rw [C09.a2b3_mem] at hu
+    obtain ⟨b, nz, ny, nx, z, y, x, hb0, hb1, hnz0, hnz1, hny0, hny1, hnx0, hnx1, hz0, hz1, hy0, hy1, hx0, hx1, _, _, _, rfl⟩ := hu
+    refine ⟨b, nz, ny, nx, z, y, x, hb0, hb1, hnz0, hnz1, hny0, hny1, hnx0, hnx1, hz0, hz1, hy0, hy1, hx0, hx1, ?_⟩
+    simp [ravel, shapeProd]
+  · rintro ⟨c, nz, ny, nx, z, y, x, hc0, hc1, hnz0, hnz1, hny0, hny1, hnx0, hnx1, hz0, hz1, hy0, hy1, hx0, hx1, rfl⟩
+    refine ⟨_, hE, ?_⟩
+    simp only [List.mem_map]
+    refine ⟨([c, nz, ny, nx, z, y, x], [c, nz * 1 + z, ny * 1 + y, nx * 1 + x], 1), ?_, by simp [ravel, shapeProd]⟩
+    rw [C09.a2b3_mem]
+    refine ⟨c, nz, ny, nx, z, y, x, hc0, hc1, hnz0, hnz1, hny0, hny1, hnx0, hnx1, hz0, hz1, hy0, hy1, hx0, hx1, ?_, ?_, ?_, rfl⟩
+    · simp [shapeFn]; omega
+    · simp [shapeFn]; omega
+    · simp [shapeFn]; omega
+
+/-- non-vacuity: `calib_width = 4`, `kernel_width = 2`, two coils — the 2-D calibration matrix has
+    `2·3²·2² = 72` entries -/
+example : (calibEntries 2 4 2 2).map List.length = some 72 := by decide
 
 end SigpyVerif.C17
